@@ -35,7 +35,9 @@ type c10Plan struct {
 
 func scenarioC10(r *Run) {
 	r.Conf = DefaultBESSConf()
-	hbOn := r.Ch.Choose(3, "hb") != 1
+	// rarely: more associations than the node's exit-notice channel buffers (100)
+	many := r.Ch.Choose(120, "many-assoc") == 1
+	hbOn := r.Ch.Choose(3, "hb") != 1 && !many
 	N := []uint8{1, 2}[r.Ch.Choose(2, "retries")]
 	tout := []time.Duration{500 * time.Millisecond, time.Second}[r.Ch.Choose(2, "tout")]
 	hbi := []time.Duration{time.Second, 2 * time.Second, 5 * time.Second}[r.Ch.Choose(3, "hbi")]
@@ -58,6 +60,14 @@ func scenarioC10(r *Run) {
 		r.W.Bess.Faults.LatJit = 400 * time.Microsecond
 	}
 	na := r.Ch.Choose(7, "nassoc")
+	if many {
+		na = 101 + r.Ch.Choose(12, "many-n")
+		r.Probe("more-than-100-associations")
+		r.Sim.MaxSteps = 30_000_000
+		faultMode = 0
+		r.W.Net.ToAgent.DropDen, r.W.Net.FromAgent.DropDen = 0, 0
+		r.W.Bess.Faults.SlowDen = 0
+	}
 	var plans []*c10Plan
 	for i := 0; i < na; i++ {
 		plans = append(plans, &c10Plan{p: r.AddPeer(), keys: map[string]bool{}, fseids: map[uint64]bool{}})
@@ -92,6 +102,9 @@ func scenarioC10(r *Run) {
 		pl.kaUntil = 1 << 62
 		keepAlive(pl)
 		pl.nsess = r.Ch.Choose(3, "nsess")
+		if many {
+			pl.nsess = 0
+		}
 		for k := 0; k < pl.nsess; k++ {
 			if res := pl.p.Establish(g.Session(pl.p, SessShape{NQER: r.Ch.Choose(3, "nq"), TEIDChoose: true, UEAlloc: r.Ch.Choose(2, "ua") == 1})); res.Accepted {
 				r.Accepted++
@@ -143,7 +156,7 @@ func scenarioC10(r *Run) {
 		}
 		return time.Duration(r.Ch.Choose(2000, "off-ms2")) * time.Millisecond
 	}
-	stop := r.Ch.Choose(2, "stop") == 1
+	stop := r.Ch.Choose(2, "stop") == 1 || many
 	var trigDesc []string
 	for _, pl := range plans {
 		pl := pl
@@ -151,6 +164,9 @@ func scenarioC10(r *Run) {
 			continue
 		}
 		pl.trigger = []string{"none", "release", "silence", "hbfail"}[r.Ch.Choose(4, "trigger")]
+		if many {
+			pl.trigger = "none"
+		}
 		if pl.trigger == "hbfail" && !hbOn {
 			pl.trigger = "silence"
 		}
